@@ -29,7 +29,8 @@ Oracles (all independent of networkx / gemseo):
   node split in two internally coupled harness halves ``p{i}`` <-> ``q{i}`` inside ``MDAJacobi`` / ``MDAGaussSeidel``,
   or, for a node with a self-loop, the single self-coupled harness discipline wrapped alone - or (b) a nested
   ``MDOChain`` of two harness halves, in every listing order.  For the structural oracle a nested process is one
-  node with its external grammars (a nested MDA exposes ``p{i}``, ``q{i}`` as self-couplings; it must NOT be wrapped
+  node with its external grammars (a nested MDAJacobi exposes ``p{i}`` and ``q{i}`` as self-couplings, a nested
+  MDAGaussSeidel only ``q{i}`` because its input grammar omits what an earlier member produces; it must NOT be wrapped
   again when alone, and must be grouped like any discipline when it lies on a cycle with other nodes); the data
   oracle is the same single dense solve over all harness halves.
 * ``order_disciplines_from_default_inputs`` / ``MDOInitializationChain``: success exactly when an independent
@@ -247,7 +248,7 @@ class Node:
     ``BaseMDA`` exposes as inputs and outputs); ``leaves``: the harness bodies actually executed.
     """
 
-    def __init__(self, body: Body, kind: str, loop: bool):
+    def __init__(self, body: Body, kind: str, loop: bool, nested: str = "MDAJacobi"):
         i = body.i
         self.i, self.kind = i, kind
         p, q = f"p{i}", f"q{i}"
@@ -257,7 +258,10 @@ class Node:
             self.ins, self.outs = list(body.ins), list(body.outs)
         elif kind == "mda":  # two internally coupled halves p <-> q, solved by a nested MDA
             self.leaves = [Leaf(i, [*body.ins, q], [p], "a"), Leaf(i, [*body.ins, p], [*body.outs, q], "b")]
-            self.ins, self.outs = [*body.ins, q, p], [p, *body.outs, q]
+            # external grammars: MDAJacobi takes the union of its disciplines' inputs (p and q are inputs and outputs);
+            # MDAGaussSeidel, like a chain, leaves out an input produced by an earlier member (only q is both)
+            self.ins = [*body.ins, q, p] if nested == "MDAJacobi" else [*body.ins, q]
+            self.outs = [p, *body.outs, q]
         elif kind == "chain":  # first half feeds the second one, nested MDOChain
             self.leaves = [Leaf(i, body.ins, [p], "a"), Leaf(i, [*body.ins, p], body.outs, "b")]
             self.ins, self.outs = list(body.ins), [p, *body.outs]
@@ -270,7 +274,7 @@ class Node:
 def system(case):
     """The nodes of a case; ``case["kinds"]`` (default all "plain") says which nodes are nested processes."""
     kinds = case.get("kinds") or ["plain"] * case["n"]
-    return [Node(b, kinds[b.i], b.i in case["loops"]) for b in bodies(case)]
+    return [Node(b, kinds[b.i], b.i in case["loops"], case.get("nested", "MDAJacobi")) for b in bodies(case)]
 
 
 def monolithic(bs):
